@@ -226,7 +226,19 @@ def _run_body(request, context, tag, behave):
         raise P['HTTPNotFound']('app says missing')
 
 
-def make_view(tag, kind, behave):
+def _with_defaults(cls, vd):
+    """@view_defaults(permission=..) on the class itself ('own') or on a base class the view class inherits from ('base')"""
+    if not vd:
+        return cls
+    from pyramid.view import view_defaults
+    perm = _P['perm_obj'][vd['perm']]
+    if vd['where'] == 'own':
+        return view_defaults(permission=perm)(cls)
+    base = view_defaults(permission=perm)(type('Base', (), {}))
+    return type(cls.__name__, (cls, base), {})
+
+
+def make_view(tag, kind, behave, vd=None):
     """-> (view, attr, renderer)"""
     P = _P
 
@@ -258,7 +270,7 @@ def make_view(tag, kind, behave):
             def __call__(self):
                 _run_body(self.request, self.context, tag, behave)
                 return resp()
-        return View, None, None
+        return _with_defaults(View, vd), None, None
 
     class View1:
         def __init__(self, request):
@@ -271,7 +283,7 @@ def make_view(tag, kind, behave):
         def go(self):
             _run_body(self.request, None, tag, behave)
             return resp()
-    return View1, ('go' if kind == 'attr' else None), None
+    return _with_defaults(View1, vd), ('go' if kind == 'attr' else None), None
 
 
 def make_deco(tag):
@@ -330,6 +342,10 @@ class World:
             self._stmt(s)
             if cut is not None and i == cut:
                 cfg.commit()
+                if case.get('warm'):
+                    # the application is live between the commits: it serves requests (and fills the view-lookup cache)
+                    self.app = cfg.make_wsgi_app()
+                    self.warm_obs = [self.run(r) for r in case['warm']]
         self.app = cfg.make_wsgi_app()
         self.route_iface = {}
         for r in ROUTES:
@@ -367,7 +383,7 @@ class World:
                 kw['permission'] = P['perm_obj'][s['perm']]
             cfg.add_static_view('static', P['static_dir'], **kw)
             return
-        view, attr, renderer = make_view(tag, s['kind'], s['behave'])
+        view, attr, renderer = make_view(tag, s['kind'], s['behave'], s.get('vd') if k == 'view' else None)
         kw = {'attr': attr, 'renderer': renderer}
         if s.get('wrapper'):
             kw['wrapper'] = s['wrapper']
